@@ -888,3 +888,7 @@ def rules(chk: Check) -> None:
     chk.floor("R13.7", 6)
     chk.stage(c09.r09_4, Remap(chk, {"R09.4": "R13.8"}))
     chk.floor("R13.8", 2)
+    # R13.9: the moments are reproducible: getDeltas (and everything it calls) never updates in place an array it obtained from the grid's cache, the
+    # background or the polynomial (numpy basic indexing returns views) -- the second call would integrate with a corrupted measure
+    from .shared import no_inplace_mutation_of_aliased_state
+    chk.stage(no_inplace_mutation_of_aliased_state, chk, "R13.9", ("boltzmann", "polynomial", "containers", "equationOfMotion"), 3)
